@@ -13,6 +13,26 @@ WH_NOTE = ("trusted: Coq 8.16.1 kernel (no axioms: Print Assumptions is 'Closed 
            "execution; Vec/VecDeque/hashbrown/serde modelled by contract; archetype-table order is an oracle input")
 
 CLAIMED = {
+    "C03": dict(engine="world-histories",
+                text="Proved for every Inv world, any views (any kinds/order/identifier/empty) and any filter: the query as the code "
+                     "performs it (And<Views,Filter> on the identifier bits through the regenerated tables, column chosen by walking "
+                     "the bits alongside the registry, reshape) never takes an unchecked column wrongly and equals a comprehension "
+                     "over the identifier->component-vector map; the same for World::entry(..).query; size_hint brackets the "
+                     "remaining count; a write through a mutable view changes that component of that entity only. A generated "
+                     "family of 40 (R5) + 18 (R16) query instantiations runs inside the world histories (iteration, entry query, "
+                     "mutable query) with size_hint checked before every next(). PARTIAL: query-time Entries sub-views are exercised "
+                     "by the schedule harness only (no theorem about subset.rs).",
+                technique="Rocq proof that the table-driven filter + bit-walk column selection equals a comprehension over the map + generated query family run differentially",
+                ref="DESIGN.md §7 C03"),
+    "C15": dict(engine="world-histories",
+                text="Proved: get/get_mut are positional lookup and a write is seen at that position only; view_resources "
+                     "(canonical views then Reshape by successive Get) returns, for every duplicate-free request in any order, the "
+                     "j-th requested resource at position j; frame: no entity operation changes the resources, clone copies, "
+                     "clone_from replaces, the serde round trip preserves. The harness holds four resource types of different "
+                     "layouts, reads them after every operation through get and through 28 view_resources subsets/orders/"
+                     "mutabilities, writes through get_mut and through single and two-resource mutable views.",
+                technique="Rocq proof of positional get/view/reshape lemmas and the frame over all histories + differential execution with permuted resource views",
+                ref="DESIGN.md §7 C15"),
     "C18": dict(engine="constructors", note="CTOR_NOTE",
                 text="Proved over a model of the constructors whose control structure is regenerated from the source on every run "
                      "(which functions build a World/Batch value, that from_raw_parts asserts before building, that new/default/"
@@ -135,7 +155,7 @@ def main():
         })
     engines = [
         {"name": "world-histories", "path": "lib/wh.py",
-         "serves_properties": ["C01", "C02", "C04", "C06", "C10", "C13", "C15", "C16"],
+         "serves_properties": ["C01", "C02", "C03", "C04", "C06", "C10", "C13", "C15", "C16"],
          "kind_free_text": "random+corpus operation histories run on the real library (harness/src/bin/wh.rs) and on the "
                            "extracted Gallina model (extract/wh_driver.ml), compared step by step; spec-side oracles "
                            "(reference map, structural invariant, ledger, equality, independence) on the implementation trace"},
